@@ -226,7 +226,8 @@ def evs(n, env, events=None):
         else:
             old = env[nm]
             env[nm] = {"+=": old + v, "-=": old - v, "*=": old * v, "/=": int(old / v) if v else 0,
-                       "%=": old - int(old / v) * v if v else 0}.get(op)
+                       "%=": old - int(old / v) * v if v else 0, "|=": old | v, "&=": old & v, "^=": old ^ v,
+                       "<<=": old << v if v >= 0 else None, ">>=": old >> v if v >= 0 else None}.get(op)
             if env[nm] is None:
                 raise Unsupported("assignment " + op)
         return env[nm]
